@@ -2,7 +2,7 @@
 import json, glob, sys, jsonschema
 s = json.load(open("/root/.vp/EVIDENCE.schema.json"))
 ok = True
-for f in sorted(glob.glob("/verif/evidence/*.json")):
+for f in sorted(glob.glob("/verif/evidence/*.json") + glob.glob("/verif/evidence/thorough/*.json")):
     try:
         e = json.load(open(f)); jsonschema.validate(e, s)
         c = e["coverage"]
